@@ -17,7 +17,7 @@ from harness.common import ASSUME, FAIL, PASS, check, tape_harness  # noqa: F401
 from harness import oracles as O
 from harness.frames import FakeFrame
 from harness.stubeval import StubError, parse_stub
-from harness.values import G_NESTED, G_NESTED2, G_NESTED_ALT, G_NESTEDX, G_ODD, Grammar, build_value, show
+from harness.values import G_NESTED, G_NESTED2, G_NESTED_ALT, G_NESTEDX, G_ODD, G_ODD12, Grammar, build_value, show
 from vfix import funcs as F
 
 import monkeytype.typing as MT
@@ -472,7 +472,7 @@ G_DICT = Grammar(top_atoms=("int", "None"), elem_atoms=("int", "str"), container
 G_TUP = Grammar(top_atoms=("None", "int"), elem_atoms=("int", "bool"), containers=("tuple",), max_size=2, depth=1)
 _CFG = {
     "c01_tuples": (c01_body, G_TUP, 3, (0, 1, 5)),
-    "c01_odd": (c01_body, G_ODD, 3, (0, 1, 3)), "c01_nestedalt": (c01_body, G_NESTED_ALT, 2, "single"), "c06_gen2": (c06_body, None, 2, (15, 16)), "c01_gen2": (c01_body, G_PIPE, 2, (15, 16)),
+    "c01_odd": (c01_body, G_ODD, 3, (0, 1, 3)), "c01_odd_quick": (c01_body, G_ODD12, 3, (0, 1)), "c01_nestedalt": (c01_body, G_NESTED_ALT, 2, "single"), "c06_gen2": (c06_body, None, 2, (15, 16)), "c01_gen2": (c01_body, G_PIPE, 2, (15, 16)),
     "c01_quick": (c01_body, G_PIPE, 2, False), "c01_medium": (c01_body, G_PIPE1, 2, False), "c01_thorough": (c01_body, G_PIPE2, 2, False),
     "c01_three": (c01_body, G_PIPE, 3, False), "c01_matrix": (c01_body, G_PIPE, 2, True),
     "c01_nested2": (c01_body, G_NESTED2, 2, "single"), "c01_nested": (c01_body, G_NESTED, 2, "single"),
